@@ -91,7 +91,7 @@ CHECKS = [C15Check, C16Check]
 # ----------------------------------------------------------------------------------------------
 
 EXCS = ["InjectedFault", "InjectedFault", "InjectedFault", "KeyError", "ZeroDivisionError", "AttributeError",
-        "ValueError", "TypeError", "IndexError", "StopIteration", "RuntimeError"]
+        "ValueError", "TypeError", "IndexError", "StopIteration", "RuntimeError", "KeyboardInterrupt", "GeneratorExit"]
 
 
 def callout_bound(cfg, k, rows=4):
